@@ -77,7 +77,7 @@ def render(h: dict[str, Any]) -> str:
         if c["kw_only"]:
             args.append("kw_only=True")
         out.append(f"@dataclass({', '.join(args)})")
-        out.append(f"class {c['name']}({c['base']}):")
+        out.append(f"class {c['name']}({', '.join(bases_of(c))}):")
         if not c["fields"]:
             out.append("    pass")
         for f in c["fields"]:
@@ -104,27 +104,47 @@ def render(h: dict[str, Any]) -> str:
     return "\n".join(out)
 
 
-def linear(h: dict[str, Any], cname: str) -> list[dict[str, Any]]:
-    """Dataclass field order: bases first; an override keeps the slot of the field it overrides."""
+def bases_of(c: dict[str, Any]) -> list[str]:
+    return [c["base"]] + ([c["base2"]] if c.get("base2") else [])
+
+
+def mro_names(h: dict[str, Any], cname: str) -> list[str]:
+    """C3 linearisation of a generated class (nearest first, ASTNode excluded), computed by Python itself on plain
+    stand-in classes"""
     by = {c["name"]: c for c in h["classes"]}
-    chain = []
-    n = cname
-    while n != "ASTNode":
-        chain.append(by[n])
-        n = by[n]["base"]
+    memo: dict[str, type] = {"ASTNode": type("ASTNode", (), {})}
+
+    def mk(n: str) -> type:
+        if n not in memo:
+            memo[n] = type(n, tuple(mk(b) for b in bases_of(by[n])), {})
+        return memo[n]
+
+    return [k.__name__ for k in mk(cname).__mro__ if k.__name__ in by]
+
+
+def linear(h: dict[str, Any], cname: str) -> list[dict[str, Any]]:
+    """Dataclass field order (dataclasses._process_class): the bases in reverse MRO order each contribute ALL their
+    fields, then the class' own; a field seen again keeps its first slot and takes the later definition."""
+    by = {c["name"]: c for c in h["classes"]}
     out: list[dict[str, Any]] = [
         {"name": "id", "kind": "special", "init": False, "compare": False},
         {"name": "content_id", "kind": "special", "init": False, "compare": False},
         {"name": "origin", "kind": "special", "init": True, "compare": True},
     ]
-    for c in reversed(chain):
-        for f in c["fields"]:
-            for i, g in enumerate(out):
-                if g["name"] == f["name"]:
-                    out[i] = f
-                    break
-            else:
-                out.append(f)
+
+    def put(f: dict[str, Any]) -> None:
+        for i, g in enumerate(out):
+            if g["name"] == f["name"]:
+                out[i] = f
+                return
+        out.append(f)
+
+    mro = mro_names(h, cname)
+    for b in reversed(mro[1:]):
+        for f in linear(h, b)[3:]:
+            put(f)
+    for f in by[cname]["fields"]:
+        put(f)
     return out
 
 
@@ -209,6 +229,9 @@ class World:
             raise HarnessError(f"generated hierarchy does not define: {type(e).__name__}: {e}\n{src}") from None
         self.mod = mod
         self.src = src
+        for c in self.h["classes"]:
+            if c.get("base2"):
+                self.stats.probes["class_with_two_node_bases" + ("" if c["fields"] else ":fieldless")] += 1
         return "ok"
 
     def op_early(self, op: dict[str, Any]) -> str:
@@ -262,22 +285,14 @@ class World:
         by = {c["name"]: c for c in self.h["classes"]}
         if name not in by:
             return "-"
-        bases = []
-        n = by[name]["base"]
-        while n != "ASTNode":
-            bases.append(n)
-            n = by[n]["base"]
+        bases = self._chain(name)[1:]
         subs = [c["name"] for c in self.h["classes"] if name in self._chain(c["name"])[1:]]
         b = any(x in self.used for x in bases)
         s = any(x in self.used for x in subs)
         return {(False, False): "first", (True, False): "after-base", (False, True): "after-sub", (True, True): "after-both"}[(b, s)]
 
     def _chain(self, name: str) -> list[str]:
-        by = {c["name"]: c for c in self.h["classes"]}
-        out = [name]
-        while by[out[-1]]["base"] != "ASTNode":
-            out.append(by[out[-1]]["base"])
-        return out
+        return mro_names(self.h, name)
 
     def mark(self, name: str) -> None:
         oc = self.order_class(name)
@@ -575,7 +590,22 @@ class Gen:
             classes.append({"name": f"G{i}", "base": base, "slots": slots, "kw_only": kw_only, "fields": fields})
         # CPython limitation (not pyoak): a slotted dataclass with an init=False default field cannot be the base of
         # a non-slotted dataclass (the default lives in no class attribute) -- only leaf classes are slotted
-        used_as_base = {c["base"] for c in classes}
+        # a class combining two node classes (neither an ancestor of the other), often with no field of its own
+        if len(classes) >= 2 and r.random() < 0.3:
+            h0 = {"classes": classes}
+            pairs = [(a["name"], b["name"]) for a in classes for b in classes if a is not b and a["name"] not in mro_names(h0, b["name"]) and b["name"] not in mro_names(h0, a["name"])]
+            if pairs:
+                a, b = r.choice(pairs)
+                fields = []
+                if r.random() < 0.4:
+                    inherited = [f for f in linear({"classes": classes + [{"name": "GX", "base": a, "base2": b, "fields": []}]}, "GX") if f["kind"] != "special"]
+                    for _ in range(r.choice([1, 2])):
+                        f = self.field(True, inherited, allow_override=True)
+                        if f.get("override") and any(g["name"] == f["name"] for g in fields):
+                            continue
+                        fields.append(f)
+                classes.append({"name": f"G{len(classes)}", "base": a, "base2": b, "slots": False, "kw_only": True, "fields": fields})
+        used_as_base = {b for c in classes for b in bases_of(c)}
         for c in classes:
             if c["name"] in used_as_base:
                 c["slots"] = False
